@@ -3,8 +3,8 @@ import Driver.Text
 /-
 drv_vinegar ops (not verified; exercised on every line of the C09 correspondence):
 
-  vin load <r> <env> <fmt> <settable> <payload>
-  vin rt   <s><k><d|e> <r> <env> <fmt> <settable> <hd> <tb> <args> <reprs> <dir> <walk>
+  vin load <r> <env> <fmt> <settable> <base> <payload>
+  vin rt   <s><k><d|e> <r> <env> <fmt> <settable> <base> <hd> <tb> <args> <reprs> <dir> <walk>
 
   <r>    three of T/F: import_custom_exceptions, instantiate_custom_exceptions, instantiate_oldstyle_exceptions
   <s><k> four of T/F (include_local_traceback, include_local_version, propagate_SystemExit_locally,
@@ -18,6 +18,8 @@ drv_vinegar ops (not verified; exercised on every line of the C09 correspondence
   d = `vinegar.dump` then load; e = `Connection._send_exception` (fallback record when dump or brine raises) then load
   <tb> S.. | ( S<error name> ) when traceback.format_exception raises;  <walk> N | ( S<error name> ): the first error
   raised by repr()/getattr during dump's walk
+  <base> what `cls.__str__(exc)` gives on the received object: S.. | ( S<error name> ) when it raises | N when there is no
+         such object; the model answers `str(exc)` (`Derived.__str__`) after ` str `
   <hd> ( S<module> S<name> )   <args> ( v .. ) with O<k> for what brine cannot carry
   <reprs> ( S..|N .. ) parallel to args   <dir> ( ( S<name> I<0 AttributeError|1 data|2 other> <value> S<repr>|N ) .. )
 
@@ -149,46 +151,63 @@ def dedupe : List (Str × Val) → List Str → List (Str × Val)
   | [], _ => []
   | (n, v) :: rest, seen => if seen.contains n then dedupe rest seen else (n, v) :: dedupe rest (n :: seen)
 
-def showObj (o : ExcObj) : String :=
+/-- base = what `cls.__str__(exc)` gives on the received object (supplied by the harness); `none`: the object is not an
+instance of a `Derived` subclass (the bare `StopIteration()` the `raise` statement makes) -/
+def showObj (o : ExcObj) (base : Option (Except Err Str)) : String :=
   showCls o.cls ++ " " ++ showVal (.tuple o.args) ++ " "
     ++ showVal (.tuple ((dedupe o.attrs []).map (fun p => .tuple [.str p.1, p.2])))
+    ++ " str " ++ (match base with
+      | none => "N"
+      | some b => match o.str b with
+        | .ok t => showVal (.str t)
+        | .error e => "!" ++ e.name)
 
-def showSeen : Seen → String
-  | .raised o => "raised " ++ showObj o
+def showSeen (base : Option (Except Err Str)) : Seen → String
+  | .raised o => "raised " ++ showObj o base
   | .error e => "err " ++ e.name
 
-def showLoad (res : LoadResult) : String :=
+def baseOf : Val → Option (Option (Except Err Str))
+  | .none => some none
+  | .str t => some (some (.ok t))
+  | .tuple [.str n] => some (some (.error (errOfCps n)))
+  | _ => none
+
+def showLoad (base : Option (Except Err Str)) (res : LoadResult) : String :=
   let imps := res.events.filterMap (fun ev => match ev with | .importAttempt m => some m | _ => none)
   let inits := (res.events.filter (fun ev => match ev with | .init _ => true | _ => false)).length
   let out := match res.out with
     | .error e => "err " ++ e.name
     | .ok .stopIterationClass => "stopcls"
     | .ok (.strExc s) => "str " ++ showVal (.str s)
-    | .ok (.exc o) => "exc " ++ showObj o
-  "imp " ++ showVal (.tuple imps) ++ " init " ++ toString inits ++ " out " ++ out ++ " | " ++ showSeen (requesterSees res)
+    | .ok (.exc o) => "exc " ++ showObj o base
+  let seenBase := match res.out with
+    | .ok (.exc _) => base
+    | _ => none
+  "imp " ++ showVal (.tuple imps) ++ " init " ++ toString inits ++ " out " ++ out ++ " | "
+    ++ showSeen seenBase (requesterSees res)
 
 def vinegarOp : List String → String
   | "load" :: r :: envs :: toks =>
     match recvCfg r, parseVals toks with
-    | some rc, some [fmt, tbl, payload] =>
-      match mkEnv envs fmt tbl with
-      | some env => showLoad (loadExc rc env payload)
-      | none => "bad-op"
+    | some rc, some [fmt, tbl, bs, payload] =>
+      match mkEnv envs fmt tbl, baseOf bs with
+      | some env, some base => showLoad base (loadExc rc env payload)
+      | _, _ => "bad-op"
     | _, _ => "bad-op"
   | "rt" :: s :: r :: envs :: toks =>
     match sendCfg s, recvCfg r, parseVals toks with
-    | some (sc, kind, e2e), some rc, some (fmt :: tbl :: recToks) =>
-      match mkEnv envs fmt tbl, excRec kind recToks with
-      | some env, some e =>
+    | some (sc, kind, e2e), some rc, some (fmt :: tbl :: bs :: recToks) =>
+      match mkEnv envs fmt tbl, excRec kind recToks, baseOf bs with
+      | some env, some e, some base =>
         if e2e then
           if routedLocally sc e then "local"
           else match boxExc sc e with
             | .error err => "noreply err " ++ err.name
-            | .ok p => "pay " ++ showVal p ++ " | " ++ showLoad (loadExc rc env p)
+            | .ok p => "pay " ++ showVal p ++ " | " ++ showLoad base (loadExc rc env p)
         else match dumpExc sc e with
           | .error err => "pay err " ++ err.name
-          | .ok p => "pay " ++ showVal p ++ " | " ++ showLoad (loadExc rc env p)
-      | _, _ => "bad-op"
+          | .ok p => "pay " ++ showVal p ++ " | " ++ showLoad base (loadExc rc env p)
+      | _, _, _ => "bad-op"
     | _, _, _ => "bad-op"
   | _ => "bad-op"
 
